@@ -103,6 +103,12 @@ def gen(chk):
         rng.shuffle(allpairs)
         keep = allpairs if (not quick or len(allpairs) <= 14) else allpairs[:14]
         pairs = [(i, j, rng.random() < 0.5, rng.choice('ffci')) for (i, j) in keep]
+        # the handler must be stateless: repeat ordered pairs on the same handler object, buffered first
+        # (multi-step routes included), then again with and without a buffer
+        rep = [pr for pr in keep if pr[0] != pr[1]]
+        rng.shuffle(rep)
+        for (i, j) in rep[:6]:
+            pairs += [(i, j, True, 'f'), (i, j, True, rng.choice('fci')), (i, j, False, 'f')]
         cases.append((N, nprocs, layouts, pairs, rng.randrange(10 ** 6)))
     return cases
 
